@@ -335,3 +335,187 @@ pub fn run(ctx: &mut Ctx) {
         }
     }
 }
+
+/// C18 over HTTP/3: the real QUIC listener with an authenticator configured; ping (marker and ping
+/// host), speedtest (tunnel host path and speedtest host) and reverse proxy (path mask on the tunnel
+/// host) requests without credentials
+pub fn run_h3(ctx: &mut Ctx) {
+    use crate::c02h3::LiveEndpoint;
+    use crate::h3cli::H3Client;
+    use std::io::{Read, Write};
+    use std::time::Duration;
+    quiet_panics();
+    const FIX: &str = concat!(env!("CARGO_MANIFEST_DIR"), "/fixtures/");
+    // the reverse-proxy origin: records what it saw, answers a fixed response and echoes what follows
+    let seen = Arc::new(Mutex::new(Vec::<Vec<u8>>::new()));
+    let origin_l = std::net::TcpListener::bind("127.0.0.1:0").unwrap();
+    let origin = origin_l.local_addr().unwrap();
+    {
+        let seen = seen.clone();
+        std::thread::spawn(move || {
+            for s in origin_l.incoming() {
+                let Ok(mut s) = s else { continue };
+                let seen = seen.clone();
+                std::thread::spawn(move || {
+                    let _ = s.set_read_timeout(Some(Duration::from_secs(2)));
+                    let mut got = vec![];
+                    let mut buf = [0u8; 4096];
+                    while !got.windows(4).any(|w| w == b"\r\n\r\n") {
+                        match s.read(&mut buf) {
+                            Ok(0) | Err(_) => break,
+                            Ok(n) => got.extend_from_slice(&buf[..n]),
+                        }
+                    }
+                    let _ = s.write_all(b"HTTP/1.1 200 OK\r\nX-Origin: yes\r\nContent-Length: 12\r\n\r\nORIGIN-BYTES");
+                    let t0 = std::time::Instant::now();
+                    while t0.elapsed() < Duration::from_millis(300) {
+                        match s.read(&mut buf) {
+                            Ok(0) => break,
+                            Ok(n) => got.extend_from_slice(&buf[..n]),
+                            Err(_) => {}
+                        }
+                    }
+                    seen.lock().unwrap().push(got);
+                });
+            }
+        });
+    }
+    for allow_private in [false, true] {
+        let Some(ep) = LiveEndpoint::start(move |addr| {
+            let settings = Settings::builder()
+                .listen_address(addr)
+                .unwrap()
+                .listen_protocols(ListenProtocolSettings {
+                    http1: Some(Http1Settings::builder().build()),
+                    http2: Some(Http2Settings::builder().build()),
+                    quic: Some(QuicSettings::builder().build()),
+                })
+                .speedtest_enable(true)
+                .allow_private_network_connections(allow_private)
+                .reverse_proxy(ReverseProxySettings::builder().server_address(origin).unwrap().path_mask("/rp".to_string()).build().unwrap())
+                .build()
+                .unwrap();
+            let h = |n: &str, f: &str| TlsHostInfo { hostname: n.into(), cert_chain_path: format!("{}{}", FIX, f), private_key_path: format!("{}{}", FIX, f), allowed_sni: vec![] };
+            let hosts = TlsHostsSettings::builder()
+                .main_hosts(vec![h("main.verif.test", "c05_main.pem")])
+                .ping_hosts(vec![h("ping.verif.test", "c05_ping.pem")])
+                .speedtest_hosts(vec![h("speed.verif.test", "c05_speed.pem")])
+                .reverse_proxy_hosts(vec![h("rproxy.verif.test", "c05_rproxy.pem")])
+                .build()
+                .unwrap();
+            let authn: Arc<dyn trusttunnel::authentication::Authenticator> = Arc::new(
+                trusttunnel::authentication::registry_based::RegistryBasedAuthenticator::new(&[trusttunnel::authentication::registry_based::Client { username: "u".into(), password: "p".into() }]),
+            );
+            Core::new(settings, Some(authn), hosts, Shutdown::new()).unwrap()
+        }) else {
+            ctx.notes.push("c18h3: the endpoint's listener did not come up on loopback; nothing was run".to_string());
+            return;
+        };
+        // one exchange: (sni, method, path, headers, body) -> (status, headers, body, finished)
+        let exchange = |sni: &str, method: &str, path: &str, headers: &[(String, Vec<u8>)], body: &[u8], patience: Duration| -> Option<crate::h3cli::H3Stream> {
+            let mut cl = H3Client::connect(ep.addr, Some(sni), &[b"h3"], 4 << 20, Duration::from_secs(3)).ok()?;
+            let id = cl.request(method, Some("https"), sni, Some(path), headers, body.is_empty() && method != "POST" && method != "PUT")?;
+            if !(body.is_empty() && method != "POST" && method != "PUT") {
+                let mut off = 0;
+                let t0 = std::time::Instant::now();
+                while off < body.len() && t0.elapsed() < patience {
+                    match cl.send_body(id, &body[off..], false) {
+                        Ok(n) => off += n,
+                        Err(_) => break,
+                    }
+                }
+                let t0 = std::time::Instant::now();
+                while !cl.finish(id).unwrap_or(true) && t0.elapsed() < Duration::from_secs(2) {}
+            }
+            cl.wait(patience, |c| c.streams.get(&id).map(|s| s.finished || s.reset.is_some()).unwrap_or(false));
+            let st = cl.stream(id);
+            cl.close();
+            Some(st)
+        };
+        // ---- ping ----
+        for (sni, path, hs) in [
+            ("main.verif.test", "/anything", vec![("x-ping".to_string(), b"1".to_vec())]),
+            ("main.verif.test", "/", vec![("sec-fetch-mode".to_string(), b"navigate".to_vec())]),
+            ("ping.verif.test", "/whatever", vec![]),
+            ("ping.verif.test", "/speed/1mb.bin", vec![]),
+        ] {
+            ctx.stat("h3_ping_requests");
+            match exchange(sni, "GET", path, &hs, &[], Duration::from_secs(3)) {
+                Some(st) if st.status == Some(200) && st.body.is_empty() && st.finished => {}
+                other => ctx.oracle_failure(
+                    "ping",
+                    &format!("HTTP/3 GET {} on {} with {:?} (no credentials): expected 200 with no body and a finished stream, got {:?}", path, sni, hs.iter().map(|(n, _)| n.as_str()).collect::<Vec<_>>(), other.map(|s| (s.status, s.body.len(), s.finished, s.reset))),
+                ),
+            }
+        }
+        // ---- speedtest: the model's table, on the tunnel host's /speed path and on the speedtest host ----
+        let mut speed_cases: Vec<(&str, String, Option<String>, usize)> = vec![];
+        for n in ["0", "1", "2", "3", "101", "4294967296", "+2", "02", "-1", "", "1.5"] {
+            speed_cases.push(("GET", format!("/speed/{}mb.bin", n), None, 0));
+        }
+        if ctx.thorough() {
+            speed_cases.push(("GET", "/speed/100mb.bin".into(), None, 0));
+            speed_cases.push(("GET", "/speed/17mb.bin".into(), None, 0));
+        }
+        for p in ["/speed/1mb.bi", "/speed/mb.bin", "/speed/1MB.bin", "/speed/x/1mb.bin", "/speed/upload.html"] {
+            speed_cases.push(("GET", p.to_string(), None, 0));
+        }
+        for (cl, actual) in [("1", 1usize), ("5", 5), ("0", 0), ("125829121", 0), ("x", 0), ("70000", 70000)] {
+            speed_cases.push(("POST", "/speed/upload.html".into(), Some(cl.to_string()), actual));
+        }
+        speed_cases.push(("POST", "/speed/upload.htm".into(), Some("5".into()), 5));
+        speed_cases.push(("PUT", "/speed/upload.html".into(), Some("5".into()), 5));
+        speed_cases.push(("DELETE", "/speed/1mb.bin".into(), None, 0));
+        for (method, path, cl, actual) in speed_cases {
+            for own_host in [false, true] {
+                if own_host && allow_private {
+                    continue;
+                }
+                // on the speedtest host the path carries no /speed prefix
+                let (sni, p) = if own_host { ("speed.verif.test", path.trim_start_matches("/speed").to_string()) } else { ("main.verif.test", path.clone()) };
+                let mut hs = vec![];
+                if let Some(c) = &cl {
+                    hs.push(("content-length".to_string(), c.clone().into_bytes()));
+                }
+                let body = vec![0x5au8; actual];
+                let st = exchange(sni, method, &p, &hs, &body, Duration::from_secs(if path.contains("100mb") { 60 } else { 10 }));
+                let (status, len, fin) = st.map(|s| (s.status.unwrap_or(0), s.body.len(), s.finished)).unwrap_or((0, 0, false));
+                if status == 200 && !fin {
+                    ctx.oracle_failure("speedtest", &format!("HTTP/3 {} {} on {}: answered 200 but the stream never ended ({} body bytes)", method, p, sni, len));
+                }
+                ctx.emit(
+                    &format!("c18 speed {} {} {}", method, hex(path.as_bytes()), cl.as_ref().map(|c| format!("c{}", if c.is_empty() { String::new() } else { hex(c.as_bytes()) })).unwrap_or_else(|| "-".into())),
+                    &format!("{} {}", status, len),
+                );
+                ctx.stat(&format!("speed_h3_{}", status));
+            }
+        }
+        // ---- reverse proxy: path mask on the tunnel host, and the reverse-proxy host itself ----
+        for (sni, path) in [("main.verif.test", "/rp/socket?x=1"), ("rproxy.verif.test", "/any/path?y=2")] {
+            ctx.stat("h3_reverse_proxy_requests");
+            seen.lock().unwrap().clear();
+            let hs = vec![("x-custom".to_string(), b"v".to_vec()), ("proxy-authorization".to_string(), b"Basic bogus".to_vec())];
+            let st = exchange(sni, "GET", path, &hs, &[], Duration::from_secs(3));
+            std::thread::sleep(Duration::from_millis(350));
+            let saw: Vec<String> = seen.lock().unwrap().iter().map(|b| String::from_utf8_lossy(b).to_string()).collect();
+            let origin_ok = saw.len() == 1
+                && saw[0].starts_with(&format!("GET {} HTTP/1.1\r\n", path))
+                && saw[0].to_lowercase().contains("x-original-protocol: http3\r\n")
+                && saw[0].to_lowercase().contains("x-custom: v\r\n");
+            let client_ok = st.as_ref().map(|s| s.status == Some(200) && s.body == b"ORIGIN-BYTES" && s.headers.iter().any(|(n, v)| n == "x-origin" && v == "yes")).unwrap_or(false);
+            if !origin_ok || !client_ok {
+                ctx.oracle_failure(
+                    "reverse_proxy",
+                    &format!(
+                        "HTTP/3 GET {} on {} (allow_private_network_connections={}): client got {:?}; the origin saw {:?}",
+                        path,
+                        sni,
+                        allow_private,
+                        st.map(|s| (s.status, String::from_utf8_lossy(&s.body).to_string(), s.headers)),
+                        saw
+                    ),
+                );
+            }
+        }
+    }
+}
